@@ -23,7 +23,6 @@ import multiprocessing
 import common
 from common import Check, main_wrapper
 
-KEY_POOL_SCALE = "pooling-ofm-scale>=2^32-truncated:generate_ofm_scaling_for_pooling:int(round_away_zero(scale*rescale))"
 KEY_SCALE_BASE = "scale-base-alignment-unchecked:generate_biases-has-no-check_alignment"
 
 
@@ -159,7 +158,7 @@ def legal_batch(job):
 # ------------------------------------------------------------------------------------------------
 # malformed stream: one defect injected into an otherwise legal list
 
-DEFECTS = ["nhcwb16_addr", "nhwc16_addr", "stride_size", "weight_addr", "weight_len", "bias_len", "dma_u55", "lut_index",
+DEFECTS = ["pool_scale", "nhcwb16_addr", "nhwc16_addr", "stride_size", "weight_addr", "weight_len", "bias_len", "dma_u55", "lut_index",
            "broadcast", "reduce_sum_layout", "scalar_range", "no_kernel", "pool_no_padding", "tile_addr"]
 
 
@@ -273,6 +272,17 @@ def inject(rng, ops, arch, defect):
             return False
         rng.choice(convs).kernel = None
         return True
+    if defect == "pool_scale":
+        # average / reduce-sum pooling over a window larger than 1x1 that requantises by 16: the OFM scale needs 36 bits
+        cands = [o for o in blocks if isinstance(o, a.NpuPoolingOperation) and o.sub_op_type != a.NpuPoolingOp.MAX
+                 and sum(o.padding) == 0 and o.kernel.width * o.kernel.height > 1 and not o.fused_quantize and o.rescale is None
+                 and (o.activation is None or o.activation.op_type not in (a.NpuActivationOp.TANH, a.NpuActivationOp.SIGMOID))]
+        if not cands:
+            return False
+        o = rng.choice(cands)
+        o.ifm.quantization = a.NpuQuantization(scale_f32=0.003921568859368563, zero_point=o.ifm.quantization.zero_point)
+        o.ofm.quantization = a.NpuQuantization(scale_f32=0.000244140625, zero_point=o.ofm.quantization.zero_point)
+        return True
     if defect == "pool_no_padding":
         cands = [o for o in blocks if isinstance(o, a.NpuPoolingOperation)]
         if not cands:
@@ -362,19 +372,6 @@ def edge_cases():
     b = op.biases[0] if op.biases else a.NpuAddressRange(0, 4096, 32)
     op.biases = [a.NpuAddressRange(b.region, b.address + 8, b.length)]
     out.append(("scale_base_unaligned", 2, [op], "finding:" + KEY_SCALE_BASE))
-    # finding: pooling OFM scale wider than 32 bits (3x8 average pool, requantisation by 16)
-    rng = random.Random(3)
-    al = c06_ops.Alloc(rng, 1 << 32)
-    p = a.NpuPoolingOperation(a.NpuPoolingOp.AVERAGE)
-    p.kernel = a.NpuKernel(3, 8)
-    p.padding = a.NpuPadding(0, 0, 0, 0)
-    p.ifm = c06_ops.make_fm(rng, al, a.NpuShape3D(10, 6, 16), a.NpuDataType.INT8, layout=a.NpuLayout.NHWC, region=1, tiles=False, strides=False, zp=0)
-    p.ofm = c06_ops.make_fm(rng, al, a.NpuShape3D(3, 4, 16), a.NpuDataType.INT8, layout=a.NpuLayout.NHWC, region=1, tiles=False, strides=False, zp=0)
-    p.ifm.quantization = a.NpuQuantization(scale_f32=0.003921568859368563, zero_point=0)
-    p.ofm.quantization = a.NpuQuantization(scale_f32=0.000244140625, zero_point=0)
-    if not c06_ops.pick_block_config(rng, p, arch[2]):
-        raise common.InfraError("no block config for the pooling edge case")
-    out.append(("pool_scale_36_bits", 2, [p], "finding:" + KEY_POOL_SCALE))
     # outside the quantifier (no hardware encoding exists): accepted and silently truncated — replays the _witness theorems
     op = base_conv(4, 5)
     op.ofm.shape = a.NpuShape3D(height=65537, width=op.ofm.shape.width, depth=op.ofm.shape.depth)
@@ -425,19 +422,6 @@ def parse(ans):
     el = [t for t in parts[0].split() if t.startswith("elided=")]
     d["elided"] = int(el[0][7:]) if el else 0
     return d
-
-
-def pool_scale_only(d):
-    """all comparison / fit messages are the known pooling OFM_SCALE overflow (expected scale >= 2^32)"""
-    msgs = d.get("cmp_msgs", [])
-    if d.get("cmp", 0) != len(msgs) or not msgs:
-        return False
-    for m in msgs:
-        if ".ofmScale.scale:exp=" not in m:
-            return False
-        if int(m.split(":exp=")[1].split(":")[0]) < (1 << 32):
-            return False
-    return all(".ofmScale=" in m for m in d.get("fits_msgs", [])) and d.get("fits", 0) == len(d.get("fits_msgs", []))
 
 
 def replay_mode(ck):
@@ -505,12 +489,7 @@ def main():
         ok = d.get("decode") == "ok" and d.get("stop") == 1 and d.get("cmp") == 0 and d.get("fits") == 0 and d.get("align") == 0 \
             and d.get("scalebase") == 0
         if not ok:
-            if d.get("decode") == "ok" and d.get("stop") == 1 and d.get("align") == 0 and d.get("scalebase") == 0 and pool_scale_only(d):
-                ck.violation("pooling OFM_SCALE does not fit 32 bits and is truncated: " + d["cmp_msgs"][0],
-                             {"case": {"seed": ck.seed, "index": c["idx"]}, "verdict": d["raw"][:600]}, key=KEY_POOL_SCALE)
-                ck.count("known_pool_scale_overflow")
-            else:
-                spec_bad.append((c, d))
+            spec_bad.append((c, d))
         if not d["model_eq"]:
             model_diff.append((c, d))
     for c, d in spec_bad[:6]:
@@ -544,14 +523,10 @@ def main():
         ok = d.get("decode") == "ok" and d.get("stop") == 1 and d.get("cmp") == 0 and d.get("fits") == 0 and d.get("align") == 0 \
             and d.get("scalebase") == 0
         if not ok:
-            if d.get("decode") == "ok" and d.get("stop") == 1 and d.get("align") == 0 and d.get("scalebase") == 0 and pool_scale_only(d):
-                ck.violation("pooling OFM_SCALE truncated in a compiled network: " + d["cmp_msgs"][0],
-                             {"profile": o["profile"], "seed": o["seed"], "index": o["idx"], "opts": o.get("opts")}, key=KEY_POOL_SCALE)
-            else:
-                ck.violation(f"stream of compiled network {o['idx']} ({o['profile']}, {o.get('opts')}) does not encode its NpuOperation list: "
-                             + d["raw"][d["raw"].find("|") + 2:][:260],
-                             {"profile": o["profile"], "seed": o["seed"], "index": o["idx"], "opts": o.get("opts"), "network": o.get("desc"),
-                              "stream": si, "verdict": d["raw"][:1500], "request": e["line"][:20000]})
+            ck.violation(f"stream of compiled network {o['idx']} ({o['profile']}, {o.get('opts')}) does not encode its NpuOperation list: "
+                         + d["raw"][d["raw"].find("|") + 2:][:260],
+                         {"profile": o["profile"], "seed": o["seed"], "index": o["idx"], "opts": o.get("opts"), "network": o.get("desc"),
+                          "stream": si, "verdict": d["raw"][:1500], "request": e["line"][:20000]})
         if not d["model_eq"]:
             model_diff.append(({"idx": o["idx"], "ai": -1, "line": e["line"], "meta": {"n": e["nops"]}, "pipeline": True}, d))
     # ---- (d) malformed stream ---------------------------------------------------------------------
@@ -571,7 +546,7 @@ def main():
     for m, a in zip(acc_mal, ck.model([m["spec_line"] for m in acc_mal]) if acc_mal else []):
         d = parse(a)
         bad = not (d.get("decode") == "ok" and d.get("stop") == 1 and d.get("cmp") == 0 and d.get("align") == 0 and d.get("scalebase") == 0)
-        if bad and not pool_scale_only(d):
+        if bad:
             ck.violation(f"a list with injected defect '{m['defect']}' is accepted and its stream breaks the Spec: " + d["raw"][d["raw"].find("|") + 2:][:240],
                          {"defect": m["defect"], "malformed_case": {"seed": ck.seed, "index": m["idx"]}, "request": m["spec_line"][:20000],
                           "verdict": d["raw"][:1200]})
@@ -592,12 +567,6 @@ def main():
                              {"edge_case": name, "verdict": d["raw"][:600]}, key=KEY_SCALE_BASE)
             else:
                 ck.notes.append("scale base probe: " + d["raw"][:200])
-        elif expect == "finding:" + KEY_POOL_SCALE:
-            if pool_scale_only(d):
-                ck.violation("pooling OFM_SCALE does not fit 32 bits and is truncated: " + d["cmp_msgs"][0],
-                             {"edge_case": name, "verdict": d["raw"][:600]}, key=KEY_POOL_SCALE)
-            else:
-                ck.notes.append("pool scale probe: " + d["raw"][:200])
         else:
             # outside the quantifier: record whether the generator truncates silently (cmp>0 and fits>0) as the witness theorems say
             ck.count("edge_%s_%s" % (name, "truncated" if d.get("cmp", 0) > 0 else "encoded"))
